@@ -94,6 +94,9 @@ pub struct Shared {
     pub cv: Condvar,
 }
 
+/// Arbiter::current() on a system thread did not accept a task for its own system's arbiter (set by start_system)
+static IDENT_BAD: std::sync::atomic::AtomicBool = std::sync::atomic::AtomicBool::new(false);
+
 /// number of watchdog time-outs in this process so far
 static HANGS: std::sync::atomic::AtomicUsize = std::sync::atomic::AtomicUsize::new(0);
 
@@ -211,21 +214,37 @@ struct SysSide {
 }
 
 /// a fresh System on a fresh thread; an agent task on that thread executes closures for the coordinator
-fn start_system(userun: bool) -> SysSide {
+fn start_system(userun: bool, reuse: bool) -> SysSide {
     let (info_tx, info_rx) = mpsc::channel();
     let (ret_tx, ret_rx) = mpsc::channel();
     thread::spawn(move || {
+        if reuse {
+            // the thread has already hosted a System (run to completion and dropped): nothing of it may leak into the next one
+            let first = System::new();
+            first.block_on(async {
+                actix_rt::spawn(async {});
+            });
+            System::current().stop_with_code(9);
+            let _ = first.run_with_code();
+        }
         let runner = System::new();
         let sys = System::current();
         let (atx, mut arx) = tokio::sync::mpsc::unbounded_channel::<AgentMsg>();
+        // the agent task is started through Arbiter::current(): on the system thread that must be THIS system's arbiter
+        let ident = std::sync::Arc::new(std::sync::atomic::AtomicBool::new(false));
+        let ident2 = ident.clone();
         runner.block_on(async move {
-            actix_rt::spawn(async move {
+            let ok = Arbiter::current().spawn(async move {
                 while let Some((job, ack)) = arx.recv().await {
                     job();
                     let _ = ack.send(());
                 }
             });
+            ident2.store(ok, std::sync::atomic::Ordering::SeqCst);
         });
+        if !ident.load(std::sync::atomic::Ordering::SeqCst) {
+            IDENT_BAD.store(true, std::sync::atomic::Ordering::SeqCst);
+        }
         info_tx.send((sys, atx, thread::current().id())).unwrap();
         let r = if userun {
             match runner.run() {
@@ -307,7 +326,8 @@ fn run_case(userun: bool, seed: u64, ops: &[Op]) -> String {
     let mut rng = Rng::new(seed);
     let profile = seed % 4; // 0 tight, 1 fast, 2 mixed, 3 slow
     let sh = Arc::new(Shared::default());
-    let side = start_system(userun);
+    IDENT_BAD.store(false, std::sync::atomic::Ordering::SeqCst);
+    let side = start_system(userun, seed % 3 == 0);
     // Arbiter::new only needs a System registered on the calling thread
     System::set_current(side.sys.clone());
     let helper = Helper::new();
@@ -543,6 +563,10 @@ fn run_case(userun: bool, seed: u64, ops: &[Op]) -> String {
             }
         }
     };
+    if IDENT_BAD.load(std::sync::atomic::Ordering::SeqCst) {
+        // reported instead of a log: the monitor's language has no word for it
+        return "IDENT Arbiter::current() on the system thread is not the arbiter of System::current()".to_string();
+    }
     let mut out = format!("ret={};ops={}", ret_s, res);
     for (k, l) in per.iter().enumerate() {
         let items: Vec<String> = l
